@@ -17,6 +17,15 @@ TRUSTED_COMMON = [
 ]
 
 
+def build_judge(ctx):
+    """GEnumJudge.vo is not in the cone of Props/Cxx.v: (re)build it explicitly"""
+    ok, log = ctx.coq_build(["theories/GEnumJudge.vo"])
+    if not ok:
+        ctx.report({"unchecked": "build of coq/theories/GEnumJudge.v", "detail": log[-3000:]},
+                   {"kind": "coq_build"}, failing_input=False)
+    return ok
+
+
 def farm_bin(ctx):
     if getattr(ctx, "_farm_bin", None):
         return ctx._farm_bin, ""
@@ -244,3 +253,56 @@ def known(ctx, feats):
             if mt and all(feats.get(a) == b for a, b in mt.items()):
                 return True
     return False
+
+
+def report_all(ctx, mode, case_type, judge, jsons, bad, features, explain, widen_n, shard=12, maxlist=12):
+    """Order of the report: verdict-1 cases (the observation violates the specification = a concrete
+    failing input) first — they take the replay slots, the first unlisted one is minimised.  Cases
+    that only differ from the model (verdict 2) are listed in the evidence when the run already has
+    a failing input; when it has none, a widened farm run (other seed, widen_n more files) looks
+    for one, and only if that finds nothing are they reported `no-failing-input-found`."""
+    pid = ctx.pid
+
+    def rep_of(j, code):
+        return {"case": slim(j, maxlist=maxlist),
+                "definition_file": single_enum_file(j) if "/minimised" not in (j.get("kind") or "") else j["file"],
+                "differences": explain(j),
+                "verdict": {1: "observed behaviour violates the %s specification (failing input)" % pid,
+                            2: "observed behaviour satisfies the specification but differs from the Coq model"}[code],
+                "replay_cmd": "./check %s --replay <this file>" % pid}
+
+    def report_v1(cases):
+        found = False
+        for j in cases:
+            f = features(j)
+            if not found and not known(ctx, f):
+                j = minimise(ctx, mode, case_type, judge, j, 1)
+                f = features(j)
+            if ctx.report(rep_of(j, 1), f, failing_input=True) == "violation":
+                found = True
+        return found
+
+    v1 = [jsons[i] for i, code in bad if code == 1]
+    v2 = [jsons[i] for i, code in bad if code != 1]
+    # unlisted failing inputs first (they get the replay files), then the ones matching open findings
+    v1.sort(key=lambda j: known(ctx, features(j)))
+    have_failing = report_v1(v1)
+    ctx.cov["spec_violations"] = len(v1)
+    ctx.cov["model_only_disagreements"] = len(v2)
+    if not v2:
+        return
+    ctx.cov["model_only_samples"] = [slim(j, maxlist=4) for j in v2[:2]]
+    if not have_failing:
+        ctx.log("%d case(s) differ from the model only; widening the farm run to look for a failing input" % len(v2))
+        terms, wj, err = run_farm(ctx, mode, n=widen_n, corpus=False, seed=ctx.seed + 7919, tag="widen")
+        if not err:
+            wbad, _, err = ctx.judge_cases(HEADER, case_type, judge, terms, shard=shard, tag="widen")
+            if not err:
+                wv1 = [wj[i] for i, code in wbad if code == 1 and not known(ctx, features(wj[i]))]
+                ctx.cov["widened_run"] = {"evaluations": len(wj), "spec_violations": len(wv1)}
+                have_failing = report_v1(wv1)
+    if have_failing:
+        ctx.log("%d further case(s) satisfy the specification but differ from the model (listed in the evidence)" % len(v2))
+        return
+    for j in v2:
+        ctx.report(rep_of(j, 2), features(j), failing_input=False)
